@@ -203,6 +203,9 @@ _R7 = {
     "C19": " Also: iterations over ordered collections keyed by `Symbol` (process-wide interner index).",
     "C20": " Also: every encoder and decoder runs bincode under the same wire configuration; derived serializers write every field / variant.",
 }
+_R7["C12"] += " Round 8: the heap wrapper of a dropped closure is always released; upvalue descriptors are computed alike where they are built."
+_R7["C14"] += " Round 8: type-kind tests of the printers list every kind of type."
+_R7["C18"] += " Round 8: generated branch tests go through the template's `truthy`; the template answers the null array handle before looking it up."
 for _pid, _txt in _R7.items():
     if _pid in CLAIMS:
         CLAIMS[_pid]["text"] += _txt
